@@ -74,6 +74,84 @@ fn int_window(ctx: &Ctx, m128: bool) {
     ctx.outcome(2 + m128 as u64);
 }
 
+/// (a') acceptance window after a frame end reached by REAL execution: a straddling instruction of
+/// 4/13/23 T started d T before the frame end (every overrun 0..22), then filler instructions so
+/// that the first interrupt-enabled boundary falls on every T from the overrun to about 60; lock
+/// step with RefMachine for 24 instructions.
+fn int_window_after_overrun(ctx: &Ctx, m128: bool) {
+    let sp = spec(m128);
+    let straddlers: [(&[u8], u64); 3] = [(&[0x00], 4), (&[0x3A, 0x00, 0xA0], 13), (&[0xDD, 0x34, 0x05], 23)];
+    let fillers: [&[u8]; 4] = [&[], &[0x23], &[0x3E, 0x00], &[0x23, 0x3E, 0x00]];
+    let mut jobs: Vec<(usize, u64, usize, usize)> = Vec::new();
+    for (si, (_, len)) in straddlers.iter().enumerate() {
+        for d in 1..=*len {
+            for f in 0..4 {
+                for n in 0..12 {
+                    jobs.push((si, d, f, n));
+                }
+            }
+        }
+    }
+    par_for_with(
+        jobs.len(),
+        8,
+        || rig::emu_stepping(&opts(m128)),
+        |e, j| {
+            let (si, d, f, n) = jobs[j];
+            let mut code: Vec<u8> = straddlers[si].0.to_vec();
+            code.extend_from_slice(fillers[f]);
+            code.extend(std::iter::repeat(0x00).take(n));
+            code.push(0xFB); // EI
+            code.extend(std::iter::repeat(0x00).take(24));
+            rig::poke(e, 0x8000, &code);
+            // IM 2 handler: INC A ; RET  (no EI: one acceptance at most)
+            rig::poke(e, HANDLER, &[0x3C, 0xC9]);
+            rig::poke(e, 0xFEFF, &[HANDLER as u8, (HANDLER >> 8) as u8]);
+            let mut r = RegsView::default();
+            r.pc = 0x8000;
+            r.sp = 0xBFF0;
+            r.ix = 0xA100;
+            r.i = 0xFE;
+            r.im = 2;
+            e.verif_set_frame_clocks((sp.frame - d) as usize);
+            rig::set_regs(e.verif_cpu(), &r);
+            let img: Vec<u8> = (0..=0xFFFFu16).map(|a| e.peek(a)).collect();
+            let dummy = |_a: u16| 0u8;
+            let io = |_p: u16, _t: u64| 0xFFu8;
+            let t0 = rig::abs_t(e, m128);
+            let mut bus = RefMachine::new(sp, Contended::new(m128, 0), t0, &dummy, &io);
+            bus.mem64 = Some(img);
+            let mut rc = ref_from(&r);
+            rc.ix = 0xA100;
+            for k in 0..(n + 16) {
+                rig::step(e);
+                loop {
+                    match rc.step(&mut bus) {
+                        StepKind::Instruction => break,
+                        _ => {}
+                    }
+                }
+                let v = rig::regs_view(e.verif_cpu());
+                let it = rig::abs_t(e, m128);
+                if it != bus.t || v.pc != rc.pc || v.sp != rc.sp || v.iff1 != rc.iff1 {
+                    let overrun = straddlers[si].1 - d;
+                    ctx.violation(
+                        &format!("C05:int-window-after-overrun:{}:{}", if m128 { "128k" } else { "48k" }, if v.pc != rc.pc || v.iff1 != rc.iff1 { "acceptance" } else { "time" }),
+                        &format!(
+                            "{} machine: a {}-T instruction started {} T before the frame end (overrun {}), then filler {} + {} NOPs + EI: at step {} implementation T={} pc={:04x} iff1={}, reference T={} pc={:04x} iff1={} (INT must be accepted at a boundary iff its in-frame T < 32)",
+                            if m128 { "128K" } else { "48K" }, straddlers[si].1, d, overrun, f, n, k, it % sp.frame, v.pc, v.iff1, bus.t % sp.frame, rc.pc, rc.iff1
+                        ),
+                        json!({"kind":"int-window-overrun","m128":m128,"straddler":si,"d":d,"filler":f,"nops":n}),
+                    );
+                    break;
+                }
+            }
+            ctx.add_eval(1);
+            ctx.outcome(((bus.t - t0) << 4) ^ rc.a as u64);
+        },
+    );
+}
+
 // ---------------------------------------------------------------- (b) programs
 
 #[derive(Clone, Debug)]
@@ -345,6 +423,8 @@ pub fn run(tier: Tier, seed: u64, replay: Option<String>) -> i32 {
                     break;
                 }
             }
+        } else if c["kind"] == "int-window-overrun" {
+            int_window_after_overrun(&ctx, c["m128"].as_bool().unwrap_or(false));
         } else if c["kind"] == "int-window" {
             int_window(&ctx, c["m128"].as_bool().unwrap_or(false));
         } else {
@@ -360,6 +440,8 @@ pub fn run(tier: Tier, seed: u64, replay: Option<String>) -> i32 {
     }
     int_window(&ctx, false);
     int_window(&ctx, true);
+    int_window_after_overrun(&ctx, false);
+    int_window_after_overrun(&ctx, true);
     let progs = programs(quick);
     let frames = if quick { 6 } else { 40 };
     let jobs: Vec<(bool, usize)> = (0..progs.len()).flat_map(|i| [(false, i), (true, i)]).collect();
@@ -383,7 +465,7 @@ pub fn run(tier: Tier, seed: u64, replay: Option<String>) -> i32 {
     ctx.note("frames_per_program", json!(frames));
     ctx.sample(json!({"program": format!("{:?}", progs[progs.len() / 2])}));
     ctx.finish(
-        "(a) every T of the frame x both machines x running/halted: an enabled interrupt is accepted at that boundary iff T < 32, pushed address checked; (b) all loop bodies of <=2 (quick) / <=3 (thorough) elements over {HALT, LDIR, 23-T indexed op, EI, DI, OUT (FE), NOP sleds of 11 lengths}, code and data in contended or uncontended RAM, IM 2 handler of ~40/100/3400 T that counts interrupts, run for whole frames on the real Emulator (clock never placed) and on RefZ80+RefULA, comparing (absolute T, PC, SP) after every instruction, interrupt counter at the end; (c) emulate_frames(FrameCount(n)) emulates exactly n frames, n=1..4. states = instruction boundaries compared",
+        "(a) every T of the frame x both machines x running/halted: an enabled interrupt is accepted at that boundary iff T < 32, pushed address checked; (a') the same after a frame end reached by real execution: 4/13/23-T instructions straddling the frame end with every overrun 0..22, followed by fillers that put the first interrupt-enabled boundary on every T up to about 60, lock step with RefMachine; (b) all loop bodies of <=2 (quick) / <=3 (thorough) elements over {HALT, LDIR, 23-T indexed op, EI, DI, OUT (FE), NOP sleds of 11 lengths}, code and data in contended or uncontended RAM, IM 2 handler of ~40/100/3400 T that counts interrupts, run for whole frames on the real Emulator (clock never placed) and on RefZ80+RefULA, comparing (absolute T, PC, SP) after every instruction, interrupt counter at the end; (c) emulate_frames(FrameCount(n)) emulates exactly n frames, n=1..4. states = instruction boundaries compared",
         true,
         &["absolute T of the implementation = total_frames (hook counter incremented in new_frame) x frame length + frame clock", "RefULA from the property text, RefZ80 validated"],
     )
